@@ -312,6 +312,34 @@ func GenRandom(w *Writer, rng *rand.Rand, n int) {
 			w.Put(RunSlice(c, p, in))
 		}
 	}
+	// the reducers over long inputs (their parameter up to 12: buffer arithmetic that depends on n and the length)
+	reds := Reducers()
+	for i := 0; i < n/2; i++ {
+		r := reds[rng.Intn(len(reds))]
+		if r.Name == "SampleStream" {
+			continue
+		}
+		p := Params{N: rng.Intn(13), Pred: predTables[0], Key: keyTables[0]}
+		ns := 1
+		if r.Multi {
+			ns = rng.Intn(4)
+		}
+		in := make([][]Step, ns)
+		for j := range in {
+			l := rng.Intn(30)
+			items := make([]int, l)
+			for k := range items {
+				items[k] = 1 + rng.Intn(3)
+			}
+			in[j] = script(items)
+		}
+		if r.I != nil {
+			w.Put(RunReduceIter(r, p, in))
+		}
+		if r.S != nil {
+			w.Put(RunReduceStream(r, p, in, false))
+		}
+	}
 }
 
 func anyTrue(b []bool) bool {
